@@ -41,17 +41,21 @@ def suite(cwd):
 def main():
     a = sys.argv[1:]
     prop = a[0]
-    src = f"/tmp/wt-{prop}/_seed"
+    wtdir = f"/tmp/wt-{prop}"
+    src = None
     name = prop
     checks = [prop]
     tier = "quick"
     i = 1
     while i < len(a):
         if a[i] == "--from": src = a[i+1]; i += 2
+        elif a[i] == "--wt": wtdir = a[i+1]; i += 2
         elif a[i] == "--name": name = f"{prop}-{a[i+1]}"; i += 2
         elif a[i] == "--checks": checks = a[i+1].split(","); i += 2
         elif a[i] == "--tier": tier = a[i+1]; i += 2
         else: i += 1
+    if src is None:
+        src = os.path.join(wtdir, "_seed")
     patch = os.path.join(src, "patch.diff")
     demo_src = os.path.join(src, "verif_seed_demo_test.go")
     notes = open(os.path.join(src, "NOTES.md")).read() if os.path.exists(os.path.join(src, "NOTES.md")) else ""
@@ -80,11 +84,14 @@ def main():
             pkg = re.search(r"^package\s+(\w+)", open(demo_src).read(), re.M).group(1)
             m = re.search(r"(?:intended path|path)[^\n`]*`([^`]*verif_seed_demo_test\.go)`", notes, re.I)
             cands = []
-            if m: cands.append(os.path.dirname(m.group(1).replace(f"/tmp/wt-{prop}/", "")))
+            if os.path.exists(os.path.join(src, "meta.json")):
+                try: cands.append(json.load(open(os.path.join(src, "meta.json"))).get("demo_package_dir", "").replace(".", "", 1) if json.load(open(os.path.join(src, "meta.json"))).get("demo_package_dir") == "." else json.load(open(os.path.join(src, "meta.json"))).get("demo_package_dir", ""))
+                except Exception: pass
+            if m: cands.append(os.path.dirname(m.group(1).replace(wtdir + "/", "")))
             # the agent left the file in place in its own worktree
-            rc2, found = run(f"find /tmp/wt-{prop} -name verif_seed_demo_test.go -not -path '*/_seed/*'")
+            rc2, found = run(f"find {wtdir} -name verif_seed_demo_test.go -not -path '*/_seed/*' 2>/dev/null")
             for f in found.split():
-                cands.append(os.path.dirname(os.path.relpath(f, f"/tmp/wt-{prop}")))
+                cands.append(os.path.dirname(os.path.relpath(f, wtdir)))
             cands += {"libaudit": [""], "auparse": ["auparse"], "aucoalesce": ["aucoalesce"], "rule": ["rule"], "flags": ["rule/flags"], "rule_test": ["rule"], "libaudit_test": [""], "flags_test": ["rule/flags"], "auparse_test": ["auparse"], "aucoalesce_test": ["aucoalesce"]}.get(pkg, [])
             for cnd in cands:
                 if os.path.isdir(os.path.join(wt, cnd)):
